@@ -239,6 +239,9 @@ Proof.
   cbn [fst] in A. destruct s1; [exact A|]. apply IH. exact A.
 Qed.
 
+Lemma cl_key_slot n c : cl c -> cl (key_slot n c).
+Proof. unfold key_slot. destruct (loopKey n); auto. Qed.
+
 Lemma rloop_cl n c : Forall P (child n) -> cl c -> cl (rloop fr n c).
 Proof.
   intros Hc H. unfold rloop.
@@ -248,11 +251,11 @@ Proof.
   destruct i; try exact H0.
   - destruct v; try exact H0.
     destruct (jget j rest) as [| | | | |l|l]; try exact H0; try (unfold cl; cbn; discriminate);
-      (destruct l; [unfold cl; cbn; discriminate|apply vloop_cl; [exact Hc|exact H0]]).
+      (destruct l; [unfold cl; cbn; discriminate|apply cl_key_slot, vloop_cl; [exact Hc|exact H0]]).
   - destruct v; try exact H0.
     destruct (nth_error (store (w_cerr c None)) oid) as [ob|]; [|exact H0].
     destruct (oloop ofuel ob (prefix ++ rest)) as [[sp cnt]|]; [|exact H0].
-    apply oloop_run_cl; [exact Hc|exact H0].
+    destruct cnt; [|apply cl_key_slot]; (apply oloop_run_cl; [exact Hc|exact H0]).
   - unfold cl; cbn; discriminate.
 Qed.
 
